@@ -480,6 +480,10 @@ def source_fingerprint(repo):
         h.update(_strip_rust(ev[a:b]).encode())
         a = ev.find('if !is_as_loop(')
         h.update(_strip_rust(ev[a - 400:a + 600]).encode())
+        for start, end in (('fn handle_prefix_update', 'async fn rx_msg'), ('fn apply_refresh_walk', 'async fn apply_outputs')):
+            a = ev.find(start)
+            b = ev.find(end, a)
+            h.update(_strip_rust(ev[a:b]).encode())
         tb = open(os.path.join(repo, 'table/src/lib.rs')).read()
         a = tb.find('pub fn restale_llgr')
         b = tb.find('pub fn drop_no_llgr', a)
